@@ -962,6 +962,13 @@ impl<K: EnrKey> Enr<K> {
     /// Signs the ENR record based on the identity scheme. Currently only "v4" is supported.
     /// The previous signature is returned.
     fn sign(&mut self, key: &K) -> Result<Vec<u8>, Error> {
+        // The record is verified against the public key its content resolves to. For key types that
+        // read more than one entry (e.g. `CombinedKey`) that is not necessarily the entry the signer
+        // wrote, so make sure it is the signer's key; otherwise the signature could never verify.
+        match K::enr_to_public(&self.content) {
+            Ok(public_key) if public_key.encode().as_ref() == key.public().encode().as_ref() => {}
+            _ => return Err(Error::SigningError),
+        }
         let new_signature = self.compute_signature(key)?;
         Ok(std::mem::replace(&mut self.signature, new_signature))
     }
